@@ -36,6 +36,7 @@ RULE = (
     "distinct = (op-kind sequence with runs collapsed, first 10) x set of contribution classes assembled; "
     "non-trivial = at least one assemble with >= 3 contributions followed by an evaluate"
 )
+RULE += " System.step_callback is compared as the sequential application of the contributions' callbacks in registration order (order-sensitive callbacks on fake bodies and couplers that share coordinates; the harness's own evaluation leaves Sphere2Sphere's reference basis untouched)."
 COMPONENTS = {
     "real": ["cardillo.System (add/remove/pop/extend/assemble and every evaluation method)", "all library contribution classes listed in the rule"],
     "stub": ["FakeBody / FakeCoupler contributions (harness-defined, duck-typed) supply interface families no library contribution has"],
